@@ -250,6 +250,101 @@ func vhBuild(ctx int, s []byte) vhCtx {
 		c.symStart = 8 * len(p)
 		c.stream = append(append(p, s...), make([]byte, 20)...)
 		return c
+	case ctx == 92:
+		// a complete final dynamic block (template K, run-length coded header, empty body,
+		// end-of-block, then zero bytes) in which the bits [BLO, BHI) are symbolic: header
+		// fields, code-length code lengths or code-length symbols, a few bits at a time
+		lit, dist := vhTemplate(verifrt.Param("K"))
+		d := vbDynHeader(w, true, lit, dist, true)
+		c.preOut = 0
+		d.sym(w, 256)
+		t := append(w.bytes(), make([]byte, 16)...)
+		lo, hi := verifrt.Param("BLO"), verifrt.Param("BHI")
+		first := lo / 8
+		verifrt.Assume(first+len(s) <= len(t))
+		for i := range s {
+			var mask byte
+			for b := 0; b < 8; b++ {
+				pos := 8*(first+i) + b
+				if pos >= lo && pos < hi {
+					mask |= 1 << uint(b)
+				}
+			}
+			v := s[i] & mask
+			if verifrt.Param("CONC") == 1 {
+				// code-length code lengths and code-length symbols: table construction over
+				// symbolic lengths is too slow for the solver; every value of the window
+				// bits becomes its own concrete case (solver-enumerated, nothing left out)
+				v = byte(verifrt.Concretize(int(v)))
+			}
+			t[first+i] = t[first+i]&^mask | v
+		}
+		c.symStart = lo
+		c.stream = t
+		return c
+	case ctx == 91:
+		// a dynamic block header whose code-length symbol stream is symbolic from a
+		// position near the literal/distance boundary on: HLIT/HDIST/HCLEN and the
+		// code-length code are concrete (0..15 five bits, 16/17/18 two/three/three bits),
+		// the first code-length symbols bring the entry index to 257+HL-K, then the window
+		// (literal lengths, repeats that run up to, across or past the boundary and the
+		// end), then zero bytes (which read as "repeat the previous length")
+		hl := verifrt.Param("HL")
+		hd := verifrt.Param("HD")
+		k := verifrt.Param("K")
+		w.bits(1, 1)
+		w.bits(2, 2)
+		w.bits(uint32(hl), 5)
+		w.bits(uint32(hd), 5)
+		var clLens [19]uint8
+		for i := 0; i < 16; i++ {
+			clLens[i] = 5
+		}
+		clLens[16], clLens[17], clLens[18] = 2, 3, 3
+		clCodes := vbCanon(clLens[:])
+		order := [19]int{16, 17, 18, 0, 8, 7, 9, 6, 10, 5, 11, 4, 12, 3, 13, 2, 14, 1, 15}
+		w.bits(15, 4)
+		for _, o := range order {
+			w.bits(uint32(clLens[o]), 3)
+		}
+		put := func(sym int, extra uint32, eb int) {
+			w.huff(uint32(clCodes[sym]), int(clLens[sym]))
+			w.bits(extra, eb)
+		}
+		target := 257 + hl - k
+		put(18, 97-11, 7) // entries 0..96 unused
+		put(2, 0, 0)      // 'a': 2 bits
+		idx := 98
+		for target-idx >= 11 {
+			run := target - idx
+			if run > 138 {
+				run = 138
+			}
+			put(18, uint32(run-11), 7)
+			idx += run
+		}
+		for target-idx >= 3 {
+			run := target - idx
+			if run > 10 {
+				run = 10
+			}
+			put(17, uint32(run-3), 3)
+			idx += run
+		}
+		for idx < target {
+			put(0, 0, 0)
+			idx++
+		}
+		c.symStart = w.bitLen()
+		if verifrt.Param("CONC") == 1 {
+			// a whole symbolic length symbol in the window: one concrete case per value
+			for i := range s {
+				s[i] = byte(verifrt.Concretize(int(s[i])))
+			}
+		}
+		c = vhMerge(w, s, c)
+		c.stream = append(c.stream, make([]byte, 24)...)
+		return c
 	case ctx == 9:
 		// as 7, followed by bytes that complete an empty stored block and a final empty
 		// fixed block IF the last window bytes are zero: anything that turns the bytes
@@ -427,7 +522,9 @@ func VerifRdOracle() {
 		verifrt.Assert(vhPrefix(fout, perm.out), "C03:invented-data")
 		if strict.status == refNeedMore {
 			verifrt.Cover("truncated")
-			if fk == 3 {
+			if fk == 3 && strict.dead {
+				// a block without an end-of-block code can never end: corrupt is right
+			} else if fk == 3 {
 				// CorruptInputError on an incomplete stream is right only if no
 				// continuation can be valid: ask for two more (symbolic) bytes that
 				// keep the reference inflater alive.
